@@ -65,6 +65,12 @@ func c11Skeleton(fd *ast.FuncDecl) []string {
 			if (name == "prepareCellStyle" || name == "CoordinatesToCellName") && len(x.Args) > 0 {
 				out = append(out, "arg0 "+strings.Join(strings.Fields(src(x.Args[0])), ""))
 			}
+		case *ast.KeyValueExpr:
+			if k, ok := x.Key.(*ast.Ident); ok {
+				if v, ok := x.Value.(*ast.BasicLit); ok && v.Kind == token.INT {
+					out = append(out, "kv "+k.Name+"="+v.Value)
+				}
+			}
 		case *ast.BasicLit:
 			if x.Kind == token.STRING {
 				out = append(out, "lit "+unq(x.Value))
@@ -226,7 +232,7 @@ func init() {
 		}
 		for _, fn := range [][2]string{
 			{"StreamWriter", "SetRow"}, {"RowOpts", "marshalAttrs"}, {"", "writeCell"},
-			{"", "setCellFormula"}, {"StreamWriter", "setCellValFunc"},
+			{"", "setCellFormula"}, {"StreamWriter", "setCellValFunc"}, {"StreamWriter", "setCellTime"},
 			{"StreamWriter", "writeSheetData"}, {"StreamWriter", "Flush"},
 			{"StreamWriter", "MergeCell"}, {"StreamWriter", "SetColWidth"},
 			{"StreamWriter", "SetColStyle"}, {"StreamWriter", "SetPanes"},
